@@ -249,8 +249,15 @@ func checkC17(c *Ctx, r *Report) {
 			avpName := parseAvpTagName(tag)
 			key := name + "." + f.Name()
 			if avpName == "" {
-				if f.Exported() {
-					r.info("C17.R1", key, c.rel(f.Pos()), "field without avp tag is never sent")
+				// go-diameter skips a member without an AVP name silently, in both directions
+				raw := st.Tag(i)
+				switch {
+				case strings.Contains(strings.ToLower(raw), "avp"):
+					r.viol("C17.R1", key+"|tag syntax", c.rel(f.Pos()), fmt.Sprintf("the struct tag %q mentions avp but is not of the form avp:\"Name\" that reflect.StructTag and go-diameter's parseAvpTag resolve (a blank after the colon, a missing quote, ...): Marshal leaves the member out and Unmarshal never fills it, without an error - what was sent in it is not received", raw))
+				case f.Exported() && c17FieldAssigned(c, tn, i):
+					r.viol("C17.R1", key+"|no tag", c.rel(f.Pos()), "the member is assigned by the module but has no avp tag: Marshal leaves it out and Unmarshal never fills it, without an error - what was sent in it is not received")
+				case f.Exported():
+					r.info("C17.R1", key, c.rel(f.Pos()), "field without avp tag is never sent (and never assigned by the module)")
 				}
 				continue
 			}
@@ -613,4 +620,30 @@ func c17Codes(c *Ctx, r *Report, ds *dictSet, appID uint32) {
 		r.check(uint32(v) == a.Code, "C17.R6", name, c.rel(k.Pos()), fmt.Sprintf("= %d = dictionary code of %s", v, a.Name),
 			fmt.Sprintf("constant %s = %d but the dictionary gives %s code %d", name, v, a.Name, a.Code))
 	}
+}
+
+// c17FieldAssigned: some function of the module stores into member i of the
+// named struct type (composite literals are stores in SSA form).
+func c17FieldAssigned(c *Ctx, tn *types.TypeName, i int) bool {
+	found := false
+	for _, f := range c.ModFuncs {
+		eachInstr(f, func(_ *ssa.BasicBlock, _ int, ins ssa.Instruction) {
+			st, ok := ins.(*ssa.Store)
+			if !ok {
+				return
+			}
+			fa, ok := st.Addr.(*ssa.FieldAddr)
+			if !ok || fa.Field != i {
+				return
+			}
+			t := fa.X.Type()
+			if p, ok := t.Underlying().(*types.Pointer); ok {
+				t = p.Elem()
+			}
+			if n, ok := t.(*types.Named); ok && n.Obj() == tn {
+				found = true
+			}
+		})
+	}
+	return found
 }
